@@ -37,6 +37,7 @@ type Cmd struct {
 	Mode       string             `json:"mode"` // "" drain all payloads | "one" take the first payload and leave
 	LeakCheck  bool               `json:"leak_check"`
 	TimeoutMs  int                `json:"timeout_ms"`
+	LeakWaitMs int                `json:"leak_wait_ms"`
 	Introspect bool               `json:"introspect"`
 }
 
@@ -225,9 +226,13 @@ func (p *Probe) Exec(c *Cmd) *Result {
 		// poll with back-off: slow exits are not leaks
 		wait := 200 * time.Microsecond
 		total := time.Duration(0)
+		leakWait := 1500 * time.Millisecond
+		if c.LeakWaitMs > 0 {
+			leakWait = time.Duration(c.LeakWaitMs) * time.Millisecond
+		}
 		for {
 			n := p.countGqlgenGoroutines()
-			if n == 0 || total > 1500*time.Millisecond {
+			if n == 0 || total > leakWait {
 				res.Leaked = n
 				if n > 0 {
 					res.LeakStack = p.gqlgenStacks(3000)
